@@ -102,6 +102,16 @@ func (g *c06Gen) msg(sym, method, params, meta string, notif bool) c06Msg {
 			p = "{" + m + "," + p[1:]
 		}
 	}
+	if meta == "" && strings.HasPrefix(p, "{") && g.r.Chance(1, 6) {
+		// a member that merely looks like _meta (member names are case-sensitive): complete metadata in it mean nothing,
+		// the message is a plain legacy one
+		m := `"` + g.r.Choose("_Meta", "_META", "_mEtA", "_meta ") + `":` + c06Meta("full")
+		if p == "{}" {
+			p = "{" + m + "}"
+		} else {
+			p = "{" + m + "," + p[1:]
+		}
+	}
 	raw := fmt.Sprintf(`{"jsonrpc":"2.0","method":%q`, method)
 	id := ""
 	if !notif {
